@@ -927,4 +927,33 @@ func genAccountFacts(l *loader, p *packages.Package, lf *leanFile) {
 	}
 	fmt.Fprintf(&lf.b, "\n/- cache.ParseBMList starts from `%s` -/\n", strings.ReplaceAll(initText, "\n", " "))
 	fmt.Fprintf(&lf.b, "def parseBMListFreshArray : Bool := %v\n", fresh)
+
+	// ptt.showBoardList: the result list is allocated by this call (make) and not handed to anything that outlives it
+	sfd := repFuncDecl(p, "showBoardList")
+	made, escapes := false, ""
+	ast.Inspect(sfd.Body, func(n ast.Node) bool {
+		switch x := n.(type) {
+		case *ast.AssignStmt:
+			if len(x.Lhs) == 1 && len(x.Rhs) == 1 {
+				if id, ok := x.Lhs[0].(*ast.Ident); ok && id.Name == "summary" {
+					if call, ok := ast.Unparen(x.Rhs[0]).(*ast.CallExpr); ok {
+						if f, ok := call.Fun.(*ast.Ident); ok && f.Name == "make" {
+							made = true
+						} else if escapes == "" {
+							escapes = "summary = " + types.ExprString(x.Rhs[0])
+						}
+					} else if escapes == "" {
+						escapes = "summary = " + types.ExprString(x.Rhs[0])
+					}
+				}
+			}
+		case *ast.DeferStmt:
+			escapes = "defer " + types.ExprString(x.Call)
+		case *ast.GoStmt:
+			escapes = "go " + types.ExprString(x.Call)
+		}
+		return true
+	})
+	fmt.Fprintf(&lf.b, "\n/- ptt.showBoardList: result list made by the call: %v; released / shared: %s -/\n", made, leanStr(escapes))
+	fmt.Fprintf(&lf.b, "def showBoardListFresh : Bool := %v\n", made && escapes == "")
 }
